@@ -143,7 +143,7 @@ def Stagnant {τ : Type} (p : Parameter ℝ τ) : Prop := p.stagnant = true
 /-- at rest and already seen by one `update` (`previous_value = value`) -/
 def Settled {τ : Type} (p : Parameter ℝ τ) : Prop := p.stagnant = true ∧ p.prev = p.raw
 
-theorem settle {τ : Type} (tw : Tweenable ℝ τ) (p : Parameter ℝ τ) (d : ℝ) (info : Info ℝ) (h : Stagnant p) :
+theorem settleA {τ : Type} (tw : Tweenable ℝ τ) (p : Parameter ℝ τ) (d : ℝ) (info : Info ℝ) (h : Stagnant p) :
     (p.update tw d info).1 = { p with prev := p.raw } := by
   rw [update_stagnant tw p d info h]
 
@@ -156,7 +156,7 @@ theorem settled_fix {τ : Type} (p : Parameter ℝ τ) (h : Settled p) :
 
 theorem settled_update {τ : Type} (tw : Tweenable ℝ τ) (p : Parameter ℝ τ) (d : ℝ) (info : Info ℝ)
     (h : Settled p) : (p.update tw d info).1 = p := by
-  rw [settle tw p d info h.1, settled_fix p h]
+  rw [settleA tw p d info h.1, settled_fix p h]
 
 theorem settled_interp64 (p : Parameter ℝ ℝ) (t : ℝ) (h : Settled p) :
     p.interpolatedValue tw64 t = p.raw := by
